@@ -107,7 +107,12 @@ class SimLoop(asyncio.BaseEventLoop):
     def _asyncgen_firstiter_hook(self, agen) -> None:
         code = agen.ag_code
         if self.is_template_code(code):
-            self.agens.append((weakref.ref(agen), _gen_name(code)))
+            try:
+                tk = asyncio.current_task(self)
+                owner = tk.get_name() if tk is not None else None
+            except RuntimeError:
+                owner = None
+            self.agens.append((weakref.ref(agen), _gen_name(code), owner))
         else:
             self.agens_other += 1
         super()._asyncgen_firstiter_hook(agen)
@@ -120,12 +125,12 @@ class SimLoop(asyncio.BaseEventLoop):
             self.finalized_other += 1
         super()._asyncgen_finalizer_hook(agen)
 
-    def open_template_generators(self) -> list[str]:
-        """Names of template async generators that were started and are not finished."""
+    def open_template_generators(self, task: str | None = None) -> list[str]:
+        """Names of template async generators that were started (by `task`, if given) and are not finished."""
         out = []
-        for ref, name in self.agens:
+        for ref, name, owner in self.agens:
             g = ref()
-            if g is not None and g.ag_frame is not None:
+            if g is not None and g.ag_frame is not None and (task is None or owner == task):
                 out.append(name)
         return out
 
